@@ -483,6 +483,10 @@ def execute(case, stats):
                     d = G.ds[dso]
                     if op["how"] == "copy.deepcopy":
                         new = _copy.deepcopy(d["real"])
+                        # the copy reaches nothing of the original -- also not through the groups' link to their dataset
+                        for name in d["m"]:
+                            if getattr(d["real"][name], "parent", None) is d["real"] and getattr(new[name], "parent", None) is d["real"]:
+                                V(step, op, "deepcopy-reaches-original", {"group": name, "via": "parent"})
                         memo, gmemo = {}, {}
                         for name, go in d["m"].items():
                             if go not in gmemo:
